@@ -12,6 +12,8 @@ pub struct Faults {
     pub put_fail: Option<(u64, u64, u16)>,
     /// the n-th GET object answers 500 once
     pub get_fail: Option<u64>,
+    /// every PUT of an object whose path ends with this text answers 500 (one object is unwritable, the others are fine)
+    pub put_fail_suffix: Option<String>,
 }
 
 pub struct Stub {
@@ -68,7 +70,10 @@ impl Stub {
                     let n = p.fetch_add(1, Ordering::SeqCst) + 1;
                     let mut body = vec![];
                     let _ = rq.as_reader().read_to_end(&mut body);
-                    let inject = { f.lock().unwrap().put_fail.and_then(|(k, count, status)| if n >= k && n - k < count { Some(status) } else { None }) };
+                    let inject = {
+                        let g = f.lock().unwrap();
+                        g.put_fail.and_then(|(k, count, status)| if n >= k && n - k < count { Some(status) } else { None }).or_else(|| g.put_fail_suffix.as_ref().and_then(|s| if path.ends_with(s.as_str()) { Some(500) } else { None }))
+                    };
                     if let Some(status) = inject {
                         fp.fetch_add(1, Ordering::SeqCst);
                         if status == 409 {
